@@ -7,7 +7,8 @@ from ..core import VOCAB, enc
 RULE = ("accepted vectors (every version, random spelling): clean vector vs the expected canonical listing of "
         "the defined metrics, re-parse round trip; pairs of vectors differing in 0 / 1 / several metrics, in "
         "spelling only, in minor version, in class: ==, !=, hash, set/dict membership vs 'same version and "
-        "same defined metric values'; distinct = distinct objects + distinct pairs")
+        "same defined metric values'; distinct = distinct objects + distinct pairs"
+        " + special families, systematic field orders; the clean vector of every ACCEPTED edited string re-parses to an equal object and is a vector of the Lean grammar")
 ASSUMPTIONS = ["the fixed metric order is read off the clean vector of a vector defining every metric"]
 
 
@@ -248,8 +249,10 @@ def replay(data):
         (va, a), (vb, b) = r["a"], r["b"]
         oa, _ = obs.construct(va, a, warm=True)
         ob, _ = obs.construct(vb, b, warm=True)
-        if oa is None or ob is None:
-            return False, "rejected"
+        if oa is None:
+            return obs.rejected_verdict(va, a, "rejected")
+        if ob is None:
+            return obs.rejected_verdict(vb, b, "rejected")
         exp = data.get("expected")
         msg = "a=%s(%r) b=%s(%r): a==b %s, hash equal %s, clean %r / %r; expected equal=%r" % (
             va, a, vb, b, oa == ob, hash(oa) == hash(ob), oa.clean_vector(), ob.clean_vector(), exp)
